@@ -103,6 +103,10 @@ def generate(R, tier):
             msg, _ = H.render(R, d, 1, hs, b"", fold=False)
             msgs.append((d, hs))
             payloads.append(msg.hex())
+        if R.random() < 0.5:
+            # a payload that is refused (the first segment of a message: no blank line yet; or not HTTP at all): nothing of it may linger anywhere
+            whole = bytes.fromhex(payloads[0])
+            payloads.append(R.choice([whole[:max(1, len(whole) // 2)].rstrip(b"\r\n"), b"\x16\x03\x01\x02\x00\x01\x00\x01\xfc\x03\x03", b"GET / HTTP/1.1\r\nHost: a"]).hex())
         files = [build_file(R, pkts, msgs) for _ in range(2)]
         if R.random() < 0.35:
             # the second file lacks a whole KIND of section the first one has: after loading it on the same object that kind is not loaded (DatabaseError), nothing
@@ -342,7 +346,26 @@ def impl_init():
                         r = fingerprint_uptime(scapy[o["pkt"]], last, options=Options(database=db))
                         r2 = fingerprint_uptime(pp, last, options=Options(database=db))
                         # the clock-free part of the result: the parsed packet it carries, whichever form the input had
-                        out.append({"up": [type(r.packet).__name__, r.packet == pp, r2.packet is pp]})
+                        rec = {"up": [type(r.packet).__name__, r.packet == pp, r2.packet is pp]}
+                        ts = pp.tcp.options.timestamp
+                        if ts > 100 and int(pp.tcp.type) in (2, 0x12, 0x10) and not pp.ip.is_fragment:
+                            # the clock-dependent part, with the clock PINNED: the host's clock read far in the future by an earlier call (then stepped back by NTP)
+                            # is no input of this measurement: 100 ticks in 1000 ms are 100 Hz
+                            import time as _t
+                            real = _t.time_ns
+                            try:
+                                t0 = 1_700_000_000_000
+                                _t.time_ns = lambda: (t0 + 5_000_000) * 10 ** 6
+                                TCPPacketSignature.from_packet(pp)
+                                _t.time_ns = lambda: t0 * 10 ** 6
+                                ref = TCPPacketSignature.from_packet(pp)
+                                ref.options = type(ref.options)(layout=list(ref.options.layout), quirks=ref.options.quirks, mss=ref.options.mss, window_scale=ref.options.window_scale,
+                                                                timestamp=ts - 100, eol_padding_length=ref.options.eol_padding_length)
+                                _t.time_ns = lambda: (t0 + 1000) * 10 ** 6
+                                rec["up_pinned"] = fingerprint_uptime(pp, ref, options=Options(database=db)).tps
+                            finally:
+                                _t.time_ns = real
+                        out.append(rec)
                     except PacketError:
                         out.append(None)
             except PacketError:
@@ -377,6 +400,10 @@ def judge(c, ir, mr):
             cur = c["files"][c["ops"][k]["file"]]
             shipped = c["ops"][k]["file"] == 3
         if isinstance(a, dict) and "up" in a:
+            if "up_pinned" in a and a["up_pinned"] != 100:
+                return {"kind": "a fingerprint result depends on the call history (differs from the pure function of input, database, options)",
+                        "why": "op %d %s: with the clock pinned (reference taken at t0, packet 1000 ms and 100 ticks later) fingerprint_uptime reports tps %r instead of 100 after an earlier "
+                               "call had read a later clock value" % (k, c["ops"][k], a["up_pinned"]), "judged_by": "C16_history + C13_rate (100 ticks / 1000 ms)"}
             if a["up"] != ["Packet", True, True]:
                 return {"kind": "a fingerprint result depends on the call history (differs from the pure function of input, database, options)",
                         "why": "op %d %s: fingerprint_uptime's result carries [type of .packet, equal to parse_packet(input), parsed input handed back] = %s; expected ['Packet', True, True] "
